@@ -123,6 +123,9 @@ def canonical_fields(doc, log):
         have = [(f["name"], nows(f["ty"])) for f in s["fields"]]
         if len(have) != len(ref) or [t for _, t in have] != [nows(t) for _, t in ref]:
             continue
+        refnames = {r[0] for r in ref}
+        if any(h[0] != r[0] and h[0] in refnames for h, r in zip(have, ref)):
+            continue        # fields keep their names but changed places (a reordering, not a renaming): the names are already the ones the rules use
         mp = {h[0]: r[0] for h, r in zip(have, ref) if h[0] != r[0]}
         if not mp or len(set(mp.values())) != len(mp) or set(mp.values()) & {h[0] for h in have if h[0] not in mp}:
             continue
